@@ -43,7 +43,9 @@ def job_roundtrip(ses, proto, fkind, akind):
                     # the witness model is run through the real implementation: the model's prediction (accept, same message) must be what the library does
                     from .. import replay as rp
                     m = fmt_model(['key', 'nonce', 'message', 'footer', 'assertion'], wrec)
-                    out = rp.run_native(rp.script_roundtrip({'proto': proto, 'fkind': fkind, 'akind': akind, 'model': m}))
+                    import vf.coreprops as _cp
+                    if _cp.FEATURES: out = rp.run_native_features(_cp.FEATURES, proto)      # single-configuration run (C20): the natively built crate has exactly these features
+                    else: out = rp.run_native(rp.script_roundtrip({'proto': proto, 'fkind': fkind, 'akind': akind, 'model': m}))
                     ses.native_runs = getattr(ses, 'native_runs', 0) + 1; ses.__dict__['_native_done_' + tag] = True
                     if out.get('violated') is not False:
                         ses.undecided.append('%s: the implementation disagrees with the model on the witness input: %s' % (tag, str(out)[:300]))
